@@ -39,6 +39,12 @@ impl AlphChunk {
     pub fn sanitize_image_data<R: Read>(&self, input: R, vp8x: &Vp8xChunk) -> StdResult<(), Error> {
         let (width, height) = (vp8x.canvas_width(), vp8x.canvas_height());
         if self.flags.contains(AlphFlags::COMPRESS_LOSSLESS) {
+            #[cfg(signalapp_mp4san_verif)]
+            {
+                let mut reader = BitBufReader::<_, LE>::with_capacity(input, crate::verif_bitbuf_capacity());
+                let _image = LosslessImage::read(&mut reader, width, height)?;
+                return Ok(());
+            }
             let mut reader = BitBufReader::<_, LE>::with_capacity(input, 4096);
             let _image = LosslessImage::read(&mut reader, width, height)?;
         }
